@@ -29,6 +29,9 @@ TSinks ==
           /\ Judge("C14", E.u8sum = Sum8(E.vec), I("u8sum_helper"))
           /\ Judge("C14", Has(E, "sdt") => (E.sdt_len = 36 + Len(E.vec) /\ Len(E.sdt) = E.sdt_len /\ From(E.sdt, 36) = E.vec
                                              /\ Sum8(E.sdt) = 0 /\ Slice(E.sdt, 4, 4) = LE(Len(E.sdt), 4)), I("generic_table_sink"))
+          \* the same into a generic table that already holds data, the object straddling a 64 KiB boundary of its length
+          /\ Judge("C14", Has(E, "sdt2_len") => (E.sdt2_len = 65536 - (Len(E.vec) \div 2) + Len(E.vec) /\ E.sdt2_tail = E.vec /\ E.sdt2_sum8 = 0
+                                                  /\ Slice(E.sdt2_head, 4, 4) = LE(E.sdt2_len, 4)), I("generic_table_sink_across_64k"))
           /\ Judge("C14", PbPayload(E.pb) = E.vec, I("package_builder_sink"))
           /\ Judge("C14", Has(E, "raw") => E.raw = E.vec, I("raw_form_vs_serialised_form"))
 
